@@ -4,12 +4,15 @@ set_option linter.unusedVariables false
 /-! Tie theorems (truncate group) — see `CircBuf/Lemmas/CoreTie.lean` for what they are. -/
 namespace CircBuf
 
-/-! ### truncate / clear (`drop_range` is outside the fragment: the hand model's `dropRange`) -/
+/-! ### drop_range / truncate / clear -/
+theorem tie_drop_range (rs re : Nat) (s : Sys) (h : Inv s.buf) :
+    Gen.drop_range (rs, re) s = dropRange rs re s := by
+  tie2 h [Gen.drop_range, dropRange, dropSegments]
 theorem tie_truncate_back (n : Nat) (s : Sys) (h : Inv s.buf) : Gen.truncate_back n s = truncateBack n s := by
   simp only [Gen.truncate_back, truncateBack, getBuf_bind, ite_run, bind_assoc_run, pure_run, pure_bind_run]
   split
   · rfl
-  · simp only [bind_run]
+  · simp only [bind_run, tie_drop_range n s.buf.size s h]
     cases dropRange n s.buf.size s with
     | mk r s1 => cases r with
       | error p => rfl
@@ -24,7 +27,7 @@ theorem tie_truncate_front (n : Nat) (s : Sys) (h : Inv s.buf) : Gen.truncate_fr
   · cases usub s.buf.size n with
     | error p => rfl
     | ok t =>
-      simp only [bind_run]
+      simp only [bind_run, tie_drop_range 0 t s h]
       cases dropRange 0 t s with
       | mk r s1 => cases r with
         | error p => rfl
